@@ -17,10 +17,10 @@ Import ListNotations.
 Local Open Scope N_scope.
 
 Theorem C14_tree_is_parametric :
-  forall V (T : ptab V), pt_trigger T KEof = false ->
+  forall V (T : ptab V), pt_trigger T KEof = false -> orb (pt_numnum T) (pt_trigger T KNum) = true ->
   forall ts p a, parse T p ts = Ok a ->
     exists sx, a = desugar T p sx /\ forall p', parse T p' ts = Ok (desugar T p' sx).
-Proof. intros V T H ts p a Hp. eapply parse_parametric_in_placeholder; eauto. Qed.
+Proof. intros V T H H2 ts p a Hp. eapply parse_parametric_in_placeholder; eauto. Qed.
 Print Assumptions C14_tree_is_parametric.
 
 Theorem C14_placeholder_at_ans_leaves :
@@ -31,7 +31,7 @@ Print Assumptions C14_placeholder_at_ans_leaves.
 Theorem C14_f64_public :
   forall (L : libm) s p sx, W pt_f64 0 sx -> tokens_of lt_f64 conv_f64 s = Some (print pt_f64 sx) ->
     run_f64 L s p = eval_f64 L (desugar pt_f64 p sx).
-Proof. intros L. exact (wellformed_evaluates lt_f64 conv_f64 pt_f64 (eval_f64 L) eq_refl). Qed.
+Proof. intros L. exact (wellformed_evaluates lt_f64 conv_f64 pt_f64 (eval_f64 L) eq_refl eq_refl). Qed.
 Print Assumptions C14_f64_public.
 Theorem C14_f64_at : forall (L : libm) p, run_f64 L [64] p = Ok p.
 Proof. intros. vm_compute. reflexivity. Qed.
@@ -40,7 +40,7 @@ Print Assumptions C14_f64_at.
 Theorem C14_i64_public :
   forall (L : libm) s p sx, W pt_i64 0 sx -> tokens_of lt_i64 conv_i64 s = Some (print pt_i64 sx) ->
     run_i64 L s p = eval_i64 L (desugar pt_i64 p sx).
-Proof. intros L. exact (wellformed_evaluates lt_i64 conv_i64 pt_i64 (eval_i64 L) eq_refl). Qed.
+Proof. intros L. exact (wellformed_evaluates lt_i64 conv_i64 pt_i64 (eval_i64 L) eq_refl eq_refl). Qed.
 Print Assumptions C14_i64_public.
 Theorem C14_i64_at : forall (L : libm) p, run_i64 L [64] p = Ok p.
 Proof. intros. vm_compute. reflexivity. Qed.
@@ -49,7 +49,7 @@ Print Assumptions C14_i64_at.
 Theorem C14_number_public :
   forall (L : libm) s p sx, W pt_number 0 sx -> tokens_of lt_number conv_num s = Some (print pt_number sx) ->
     run_num L s p = eval_num L (desugar pt_number p sx).
-Proof. intros L. exact (wellformed_evaluates lt_number conv_num pt_number (eval_num L) eq_refl). Qed.
+Proof. intros L. exact (wellformed_evaluates lt_number conv_num pt_number (eval_num L) eq_refl eq_refl). Qed.
 Print Assumptions C14_number_public.
 Theorem C14_number_at : forall (L : libm) p, run_num L [64] p = Ok p.
 Proof. intros. vm_compute. reflexivity. Qed.
@@ -58,7 +58,7 @@ Print Assumptions C14_number_at.
 Theorem C14_complex_public :
   forall (C : cpxlib) s p sx, W pt_complex 0 sx -> tokens_of lt_complex conv_cpx s = Some (print pt_complex sx) ->
     run_cpx C s p = eval_cpx C (desugar pt_complex p sx).
-Proof. intros C. exact (wellformed_evaluates lt_complex conv_cpx pt_complex (eval_cpx C) eq_refl). Qed.
+Proof. intros C. exact (wellformed_evaluates lt_complex conv_cpx pt_complex (eval_cpx C) eq_refl eq_refl). Qed.
 Print Assumptions C14_complex_public.
 Theorem C14_complex_at : forall (C : cpxlib) p, run_cpx C [64] p = Ok p.
 Proof. intros. vm_compute. reflexivity. Qed.
@@ -67,7 +67,7 @@ Print Assumptions C14_complex_at.
 Theorem C14_decimal_public :
   forall (D : declib) s p sx, W pt_decimal 0 sx -> tokens_of lt_decimal (conv_dec D) s = Some (print pt_decimal sx) ->
     run_dec D s p = eval_dec D (desugar pt_decimal p sx).
-Proof. intros D. exact (wellformed_evaluates lt_decimal (conv_dec D) pt_decimal (eval_dec D) eq_refl). Qed.
+Proof. intros D. exact (wellformed_evaluates lt_decimal (conv_dec D) pt_decimal (eval_dec D) eq_refl eq_refl). Qed.
 Print Assumptions C14_decimal_public.
 Theorem C14_decimal_at : forall (D : declib) p, run_dec D [64] p = Ok p.
 Proof. intros. vm_compute. reflexivity. Qed.
